@@ -39,6 +39,18 @@ func (node *tagBlockNode) Execute(ctx *ExecutionContext, writer TemplateWriter) 
 	}
 
 	blockWrapper := blockWrappers[lenBlockWrappers-1]
+
+	// "block" means this block while its body runs and what it meant before
+	// afterwards (an enclosing block, a variable of the template, nothing)
+	previous, hadPrevious := ctx.Private["block"]
+	defer func() {
+		if hadPrevious {
+			ctx.Private["block"] = previous
+		} else {
+			delete(ctx.Private, "block")
+		}
+	}()
+
 	ctx.Private["block"] = tagBlockInformation{
 		ctx:      ctx,
 		wrappers: blockWrappers[0 : lenBlockWrappers-1],
